@@ -30,6 +30,12 @@ def _check_axis_values(values, dtype=None):
     """ convert Axis type to have "object" instead of string
     """
     try:
+        if dtype is None and isinstance(values, list) and len(values) > 0 and all(isinstance(v, tuple) for v in values):
+            # a list of tuples is a list of (grouped) labels: keep the tuples as they are (one typed 2-D array would convert
+            # numbers next to strings into strings)
+            val = np.empty(len(values), dtype=object)
+            val[:] = values
+            values = val
         values = np.asarray(values, dtype=dtype)
     except Exception as error:
         raise TypeError(error.message + "\n==> axis values could not be converted to numpy array")
